@@ -94,9 +94,10 @@ def generate(rng, seed, index, tier):
         # the other solver class of the package takes part in the history as well (own parameters)
         ok = [i for i, p in enumerate(problems) if p["family"] in ("qp", "nlp", "convex-qp")]
         if ok:
-            plist.append({"iteration_limit": int(rng.choice([3, 10])), "display_interval": 1e18})
-            solvers.append({"sid": nsolv, "pid": ok[int(rng.integers(0, len(ok)))], "prm": len(plist) - 1, "scaling": None, "kind": "integration"})
-            nsolv += 1
+            for _ in range(int(rng.integers(1, 3))):
+                plist.append({"iteration_limit": int(rng.choice([3, 10])), "display_interval": 1e18, "collect_path": bool(rng.random() < 0.5)})
+                solvers.append({"sid": nsolv, "pid": ok[int(rng.integers(0, len(ok)))], "prm": len(plist) - 1, "scaling": None, "kind": "integration"})
+                nsolv += 1
     made = set()
     nops = int(rng.integers(2, 8))
     last = None
@@ -116,6 +117,9 @@ def generate(rng, seed, index, tier):
                 x0 = np.clip(np.round(rng.normal(size=sp_["n"]) * 2, 3), sp_["xl"], sp_["xu"])
                 y0 = np.round(rng.normal(size=sp_["m"]), 3) * int(rng.integers(0, 2))
             op = {"op": "solve", "sid": s["sid"], "x0": x0, "y0": y0, "obs": gen.gen_obs(rng), "clock": gen.gen_clock(rng, n=300), "faults": []}
+            if rng.random() < 0.12 and s.get("kind") != "integration":
+                # somebody else solved the very same problem with the same settings in single precision just before
+                op["pre_single"] = True
             r = rng.random()
             if r < 0.15:
                 op["clock"] = {"expire_at_read": int(rng.integers(2, 40))}
@@ -206,6 +210,22 @@ def case(world):
             problems[d["pid"]] = SimProblem(c["problems"][d["pid"]])
         prob = problems[d["pid"]]
         sid = op["sid"]
+        if op.get("pre_single") and not w["params_default"]:
+            # an unrelated earlier solve of the process: same data and settings, single precision, own objects,
+            # whatever its outcome (single precision is mostly unusable here, DESIGN 3.3)
+            ws = copy.deepcopy(w)
+            ws["params"]["precision"] = "Single"
+            ws["params"].pop("scaling_type", None)
+            ws["params"].pop("scaling", None)
+            ws["params"]["iteration_limit"] = min(int(ws["params"].get("iteration_limit") or 5), 5)
+            ws["faults"] = []
+            try:
+                execute(ws)
+            except BaseException as e:  # noqa  (a harness-side dtype problem must not decide anything)
+                if type(e).__name__ == "HarnessError":
+                    raise
+            bump("ops.after_single_precision_solve")
+            execs += 1
         if sid not in solvers:
             if w["params_default"]:
                 ex = execute(w, problem=prob, params="default")
